@@ -1,6 +1,6 @@
 (* C17 — Oracle price averaging is exact and activates only on a full window.
    Property theorems only; each is closed by [exact] of a lemma proved in Proofs/. *)
-From Comdex Require Import Lib.Base Model.Market Proofs.MarketProofs.
+From Comdex Require Import Lib.Base Model.Market Proofs.MarketProofs Proofs.MarketBlock.
 
 (* [ops] is any finite history of what reaches one asset's record: samples (height, rate) with
    any rates including 0 and 2^64-1, discard resets and validation failures, in any order.
@@ -83,6 +83,24 @@ Theorem c17_inactive_error : forall t,
   price_in_force t = Err 1 /\ get_latest t = Err 1.
 Proof. intros [tw|] H; cbn; [rewrite H|]; auto. Qed.
 Print Assumptions c17_inactive_error.
+
+(* the whole market.BeginBlocker (discard reset, rate indexing by position among the
+   price-requiring assets, validation-failed branch) does to each asset's record exactly what the
+   per-asset pipeline does on the ops it delivers to that asset: the theorems above therefore
+   speak about every block-level history *)
+Theorem c17_block_refines : forall e assets s s' d,
+  begin_block e assets s = Ok (s', d) ->
+  forall id, mrun (bb_n e) (bb_gap e) (sget s id) (filter_ops id (bb_ops e assets (map fst s))) = Ok (sget s' id).
+Proof. exact begin_block_refines. Qed.
+Print Assumptions c17_block_refines.
+
+Theorem c17_block_inv : forall e assets s s' d g id,
+  1 <= bb_n e ->
+  begin_block e assets s = Ok (s', d) ->
+  Inv17 (bb_n e) g (sget s id) ->
+  Inv17 (bb_n e) (ghost_run (bb_gap e) g (filter_ops id (bb_ops e assets (map fst s)))) (sget s' id).
+Proof. exact begin_block_asset_inv. Qed.
+Print Assumptions c17_block_inv.
 
 (* ---- formerly refuted, now proved: the two defects repaired in /repo by "fix:" commits ---- *)
 
